@@ -2,6 +2,8 @@ import MinaModel.Animator
 import MinaModel.Spec.Timing
 import MinaModel.Spec.CssValue
 import MinaModel.Bevy
+import MinaModel.Macro.Animator
+import MinaModel.Macro.Derive
 import Std.Data.HashMap
 /-!
 # Line-protocol driver: the model at `Float32`
@@ -151,6 +153,78 @@ def showWorld (w : World F) (evs : List AnimState) : String :=
 
 def showVariants (ws : List (Option (World F))) (evs : List (List AnimState)) : String :=
   " || ".intercalate ((ws.zip evs).map fun (ow, ev) => match ow with | some wd => showWorld wd ev | none => "panic")
+
+/-! ### macro ops: token encoding shared with harness/macro_harness -/
+
+def parseFields (s : String) : List (String × String) :=
+  (s.splitOn ";").filterMap fun f =>
+    if f.isEmpty then none else
+    match f.splitOn "=" with
+    | n :: rest => some (n, "=".intercalate rest)
+    | [] => none
+
+def parseTok (t : String) : Tok :=
+  if t == "for" then .kwFor else if t == "after" then .kwAfter else if t == "reverse" then .kwReverse
+  else if t == "infinite" then .kwInfinite else if t == "from" then .kwFrom else if t == "to" then .kwTo
+  else if t == "default" then .kwDefault else if t == "%" then .percent else if t == "," then .comma
+  else if t.startsWith "L:" then .lit (LitLex.lex (t.drop 2).toString)
+  else if t.startsWith "P:" then .path (t.drop 2).toString
+  else if t.startsWith "B:" then .braces (parseFields (t.drop 2).toString)
+  else .other t
+
+/-- `syn::Lit` folds `-` + numeric literal into one negative literal -/
+def foldNeg : List Tok → List Tok
+  | .other "O:-" :: .lit l :: rest => if l.kind != .other && l.kind != .byte then .lit { l with neg := true } :: foldNeg rest else .other "O:-" :: foldNeg (.lit l :: rest)
+  | t :: rest => t :: foldNeg rest
+  | [] => []
+
+def parseSentence (ws : List String) : Sentence :=
+  match ws with
+  | "[" :: rest =>
+    if rest.getLast? == some "]" then .list (foldNeg ((rest.dropLast).map parseTok)) else .single (foldNeg (ws.map parseTok))
+  | _ => .single (foldNeg (ws.map parseTok))
+
+def showKfVals : KfVals → String
+  | .default_ => "D"
+  | .explicit fs => "&".intercalate (fs.map fun (n, e) => s!"{n}={e}")
+
+def showOptBits : Option F → String
+  | some x => bits x | none => "-"
+
+def showChain (b : BuilderChain F) : String :=
+  let rep := match b.repeat_ with | none => "-" | some .infinite => "i" | some (.times k) => toString k | some .none => "n"
+  let kfs := ",".intercalate (b.keyframes.map fun (p, v) => s!"{bits p}:{showKfVals v}")
+  s!"tl[dur={showOptBits b.duration};delay={showOptBits b.delay};ease={b.easing.getD "-"};rep={rep};rev={if b.reverse then 1 else 0};kf={kfs}]"
+
+def showExpansion : Expansion F → String
+  | .timeline c => showChain c
+  | .merged cs => "merged[" ++ "|".intercalate (cs.map showChain) ++ "]"
+
+/-- split the words of a `manim` op at the `ARM` markers -/
+def splitArmsFuel : Nat → List String → List (List String)
+  | 0, _ => []
+  | _, [] => []
+  | n + 1, "ARM" :: rest =>
+    let body := rest.takeWhile (· != "ARM")
+    body :: splitArmsFuel n (rest.dropWhile (· != "ARM"))
+  | n + 1, _ :: rest => splitArmsFuel n rest
+
+def splitArms (ws : List String) : List (List String) := splitArmsFuel (ws.length + 1) ws
+
+def parseDefaults (d : String) : Option (String × DefaultValues) :=
+  if d == "D:none" then none else
+  let body := (d.drop 2).toString
+  match body.splitOn ":E:" with
+  | [s, e] => some (s, .expr e)
+  | _ =>
+    match body.splitOn ":I:" with
+    | [s, fs] => some (s, .inline (parseFields fs))
+    | _ => some (body, .none_)
+
+def showDefaults : DefaultValues → String
+  | .none_ => "none"
+  | .expr e => "expr:" ++ e
+  | .inline fs => "inline:" ++ "&".intercalate (fs.map fun (n, e) => s!"{n}={e}")
 
 def asMerged : Obj → Option (Shape × Merged F)
   | .tl sh t => some (sh, ⟨[t]⟩)
@@ -352,6 +426,43 @@ def runLine (st : Session) (line : String) : Session × String := Id.run do
     | _ => return (st, "bad-slot")
   | "reset" => return ({}, "ok")
   | "border" => return (st, "ok")
+  | "mtl" =>
+    match expandSentence (α := F) (parseSentence (w.toList.drop 1)) with
+    | .ok ex => return (st, showExpansion ex)
+    | .error _ => return (st, "reject")
+  | "manim" =>
+    let ws := w.toList.drop 1
+    let arms := (splitArms (ws.drop 1)).map fun a =>
+      match a with
+      | states :: "=>" :: body => (states.splitOn "|", parseSentence body)
+      | states :: body => (states.splitOn "|", parseSentence body)
+      | [] => ([], parseSentence [])
+    match expandAnimator (α := F) { defaults := parseDefaults (ws.headD "D:none"), arms := arms } with
+    | .ok ex =>
+      let ons := ",".intercalate (ex.ons.map fun (s, e) => s!"{s}:{showExpansion e}")
+      return (st, s!"anim[state={ex.fromState.getD "-"};defaults={showDefaults ex.defaultValues};on={ons}]")
+    | .error _ => return (st, "reject")
+  | "mderive" =>
+    let vis := match w[1]! with | "pub" => "pub" | "crate" => "pub(crate)" | _ => ""
+    let kind := match w[2]! with | "named" => StructKind.named | "tuple" => .tuple | "unit" => .unit | _ => .enum_
+    let attrs : List AnimAttr := if w[4]! == "none" then [] else
+      (w[4]!.splitOn ",").filterMap fun a => match a.splitOn "=" with
+        | [n, v] => (match v.splitOn ":" with
+          | k :: rest => some ⟨n, k == "S", ":".intercalate rest⟩
+          | [] => none)
+        | _ => none
+    let fields : List DField := (w.toList.drop 5).filterMap fun f => match f.splitOn ":" with
+      | [n, t, a] => some ⟨n, t.replace "~" "::", a == "a"⟩
+      | n :: rest => (match rest.reverse with
+        | a :: tyRev => some ⟨n, (":".intercalate tyRev.reverse).replace "~" "::", a == "a"⟩
+        | [] => none)
+      | _ => none
+    match expandDerive { name := w[3]!, vis := vis, kind := kind, fields := fields, attrs := attrs } with
+    | .ok o =>
+      let anim := ",".intercalate (o.animated.map fun (n, t) => s!"{n}:{t}")
+      let j := fun (l : List String) => ",".intercalate l
+      return (st, s!"derive[target={o.targetName};remote={lastSegment o.remotePath};vfromty={o.remotePath};tl={o.timelineName};data={o.dataName};builder={o.builderName};vis={o.vis};anim={anim};setters={j o.setters};kfrom={j o.keyframeFromCopies};vfrom={j o.valuesFromCopies};upd={j o.updateAssigns};start={j o.startAssigns};fake={if o.fakeAccess then 1 else 0}]")
+    | .error _ => return (st, "reject")
   | "bapp" =>
     let getP (tok : String) : Option (Merged F) :=
       if tok == "-" then none else ((st.slots.get? tok.toNat!).bind asMerged).map (·.2)
